@@ -119,7 +119,21 @@ class NoRecord(Exception):
 def record_graphs(cfg, seed, histories, jit_step=True):
     """Run the threaded runtime and return (ExperimentRecord-derived stacked base.Graph, episodes, harness)."""
     h = arun.AsyncHarness(cfg, seed=seed, jit_step=jit_step)
-    eps, _ = arun.run_history(h, [c for hist in histories for c in hist])
+    if any("cdist_alt" in n for n in cfg["nodes"]):
+        # episodes of ONE experiment recorded from two systems that differ in a computation-delay distribution (odd episodes use cdist_alt):
+        # structurally different timings / run masks between the episodes of one compiled graph
+        import copy
+        cfg2 = copy.deepcopy(cfg)
+        for n in cfg2["nodes"]:
+            if "cdist_alt" in n:
+                n["cdist"] = n.pop("cdist_alt")
+        h2 = arun.AsyncHarness(cfg2, seed=seed, jit_step=jit_step)
+        eps = []
+        for i, hist in enumerate(histories):
+            got, _ = arun.run_history(h2 if i % 2 else h, list(hist), eps0=i, vary_rng=True)
+            eps += got
+    else:
+        eps, _ = arun.run_history(h, [c for hist in histories for c in hist], vary_rng=True)
     eps = [e for e in eps if "record_raw" in e]
     if not eps:
         raise NoRecord("no episode produced a record (a connection consumed no message: get_record() raises, outside the properties)")
